@@ -16,6 +16,7 @@ RULE = (
     "translation of the unfolded AST must be equivalent to the reference term (structural, then solver, then "
     "substitution of the literal), and a real SolverStrings pinned with `s == literal` must return the oracle's "
     "value for BV/Bool-valued ops.  Non-trivial: has an operator node; distinct by descriptor hash."
+    " Session 4: annotated literals, digits followed by line ends/blanks, number<->string round trips on literals and variables, numerals beyond the interpreter's 4300-digit limit."
 )
 ASSUMPTIONS = [
     "Z3 4.13 sequence theory folds literal applications per SMT-LIB strings",
